@@ -43,8 +43,12 @@ Qed.
 (* the length before trimming, and "nothing but blanks was found" *)
 Definition len_raw (bs : bytes) : N :=
   fst (length_loop (N.of_nat (length bs)) (drop_leading_newlines (fst (scan true bs))) 0%N).
+(* fix 2bf15a3: no value begins outside an annotation among the events Length() requests (up to and
+   including the first EndTop): the text holds annotations (and comments, line breaks) only *)
+Definition no_example (bs : bytes) : bool :=
+  negb (has_example 0 (upto_end_top (drop_leading_newlines (fst (scan true bs))))).
 Definition nothing_found (bs : bytes) : bool :=
-  forallb is_blank (firstn (N.to_nat (len_raw bs)) bs).
+  (no_example bs || forallb is_blank (firstn (N.to_nat (len_raw bs)) bs))%bool.
 
 Lemma trim_blank_rev_nil l : trim_blank_rev l = [] <-> forallb is_blank l = true.
 Proof.
@@ -75,12 +79,14 @@ Lemma schema_len_cases bs :
   else match snd (scan true bs) with Err c p => VErr c p | _ => VPanic end.
 Proof.
   pose proof (schema_len_no_panic bs) as Hnp. pose proof (schema_scan_no_panic true bs) as Hsp.
-  unfold nothing_found, len_raw. unfold schema_len in *.
+  unfold nothing_found, no_example, len_raw. unfold schema_len in *.
   destruct (scan true bs) as [evs o]. cbn [fst snd] in *.
   pose proof (length_loop_stopped (N.of_nat (length bs)) (drop_leading_newlines evs) 0%N) as Hs.
   rewrite has_endtop_drop in Hs.
   destruct (length_loop (N.of_nat (length bs)) (drop_leading_newlines evs) 0) as [raw stopped].
   cbn [fst snd] in *. subst stopped. rewrite <- trimmed_zero.
+  destruct (negb (has_example 0 (upto_end_top (drop_leading_newlines evs)))); cbn [orb].
+  { destruct (has_endtop evs); [reflexivity|]. destruct o; [reflexivity|reflexivity|exfalso; apply Hsp; reflexivity]. }
   destruct (N.of_nat (length bs) <? raw)%N.
   - destruct (has_endtop evs); [exfalso; apply Hnp; reflexivity|].
     destruct o; [exfalso; apply Hnp; reflexivity|reflexivity|exfalso; apply Hsp; reflexivity].
@@ -496,13 +502,14 @@ Proof.
 Qed.
 
 (* "{}" LF "/abc/" ; "{"id": 1}" LF LF "/cats/{id}" ; "[1, 2]" LF "// x" (annotations are banned after a
-   non-empty array: after the line break any slash ends the schema) ; "[1, 2] // x" (304) ; "1 /" *)
+   non-empty array: after the line break any slash ends the schema) ; "[1, 2] // x" (304) ; "1 /"
+   (fix 3cd814f: a slash that is the last byte of the text ends the schema; it was Err 303 at 2) *)
 Example schema_len_trailer_with_slash :
   schema_len (bytes_of [123; 125; 10; 47; 97; 98; 99; 47]%N) = VLen 2 /\
   schema_len (bytes_of [123; 34; 105; 100; 34; 58; 32; 49; 125; 10; 10; 47; 99; 97; 116; 115; 47; 123; 105; 100; 125]%N) = VLen 9 /\
   schema_len (bytes_of [91; 49; 44; 32; 50; 93; 10; 47; 47; 32; 120]%N) = VLen 6 /\
   schema_len (bytes_of [91; 49; 44; 32; 50; 93; 32; 47; 47; 32; 120]%N) = VErr 304 7 /\
-  schema_len (bytes_of [49; 32; 47]%N) = VErr 303 2.
+  schema_len (bytes_of [49; 32; 47]%N) = VLen 1.
 Proof. vm_compute. repeat split; reflexivity. Qed.
 
 (* ================================================================== *)
@@ -538,4 +545,44 @@ Example annotation_then_block_comment_scan :
   snd (scan false annotation_then_block_comment) = Done /\
   scan true annotation_then_block_comment = scan false annotation_then_block_comment /\
   schema_len annotation_then_block_comment = VLen 18.
+Proof. vm_compute. repeat split; reflexivity. Qed.
+
+(* ================================================================== *)
+(* 7. a text of annotations only has no schema (fix 2bf15a3)           *)
+(* ================================================================== *)
+(* Len returns an error when the text does not begin with a schema: if, among the events Length()
+   requests (up to and including the first EndTop, leading NewLine events aside), no LiteralBegin /
+   ObjectBegin / ArrayBegin / MixedValueBegin arrives while no annotation is open, Len is never a length *)
+Theorem schema_len_needs_example : forall bs n, schema_len bs = VLen n ->
+  has_example 0 (upto_end_top (drop_leading_newlines (fst (scan true bs)))) = true.
+Proof.
+  intros bs n H. assert (Hv : exists m, schema_len bs = VLen m) by (exists n; exact H).
+  apply schema_len_value_iff in Hv. destruct Hv as [_ Hnf]. unfold nothing_found, no_example in Hnf.
+  apply orb_false_iff in Hnf. destruct Hnf as [Hne _]. apply negb_false_iff in Hne. exact Hne.
+Qed.
+
+Theorem schema_len_no_example : forall bs, no_example bs = true ->
+  (forall n, schema_len bs <> VLen n) /\
+  ((has_endtop (fst (scan true bs)) = true \/ snd (scan true bs) = Done) ->
+   schema_len bs = VErr code_empty_schema 0).
+Proof.
+  intros bs Hne. split.
+  - intros n H. apply schema_len_needs_example in H. unfold no_example in Hne. rewrite H in Hne. discriminate Hne.
+  - intros Hok. apply schema_len_error_iff. right. split; [exact Hok|]. split; [|split; reflexivity].
+    unfold nothing_found. rewrite Hne. reflexivity.
+Qed.
+
+(* "// x" ; "/* x */" ; "// x" LF "1" ; "{}" LF "/" ; "1 // {min: 0}" LF "/" ; "[1] /" (was 304 at 4) *)
+Example schema_len_annotations_only :
+  schema_len (bytes_of [47; 47; 32; 120]%N) = VErr 202 0 /\
+  schema_len (bytes_of [47; 42; 32; 120; 32; 42; 47]%N) = VErr 202 0 /\
+  schema_len (bytes_of [47; 47; 32; 120; 10; 49]%N) = VLen 6 /\
+  schema_len (bytes_of [123; 125; 10; 47]%N) = VLen 2 /\
+  schema_len (bytes_of [49; 32; 47; 47; 32; 123; 109; 105; 110; 58; 32; 48; 125; 10; 47]%N) = VLen 13 /\
+  schema_len (bytes_of [91; 49; 93; 32; 47]%N) = VLen 3 /\
+  (* in length mode a slash that is the last byte no longer ends inside an opener: "1 /" *)
+  snd (scan true (bytes_of [49; 32; 47]%N)) = Done /\
+  snd (scan false (bytes_of [49; 32; 47]%N)) = Err 303 2 /\
+  (* at the root value position nothing changed: "/" and " /" *)
+  schema_len (bytes_of [47]%N) = VErr 303 0 /\ snd (scan true (bytes_of [32; 47]%N)) = Err 303 1.
 Proof. vm_compute. repeat split; reflexivity. Qed.
